@@ -96,7 +96,9 @@ func (this *Allocator) getPartitionsNodeIds(partitionCount uint, replicationFact
 			nodeIds[i], nodeIds[j] = nodeIds[j], nodeIds[i]
 		})
 
-		partitionsNodeIds[i] = nodeIds[:math.MinInt(len(nodeIds), int(replicationFactor))]
+		// Copy. Every partition needs its own slice, not a view of the array that the
+		// next iteration shuffles again.
+		partitionsNodeIds[i] = append([]uint64{}, nodeIds[:math.MinInt(len(nodeIds), int(replicationFactor))]...)
 	}
 
 	return partitionsNodeIds
